@@ -136,10 +136,11 @@ class ByteArray(SimpleModel):
 
     @classmethod
     def from_urlsafe_base64(cls, value):
-        #FIXME: Find out why we need to do this.
-        if isinstance(value, six.text_type):
-            value = value.encode('utf8')
         try:
+            #FIXME: Find out why we need to do this.
+            if isinstance(value, six.text_type):
+                value = value.encode('utf8')
+
             if isinstance(value, (list, tuple)):
                 return (urlsafe_b64decode(_bytes_join(value)),)
             else:
